@@ -83,7 +83,7 @@ class JSDescFn:
 class JSStrId:
     def __init__(self, id): self.id = id
 DESC_REF_FIELDS = {'typ', 'elem'}
-DESC_STR_FIELDS = {'prop', 'name', 'pkg', 'tag'}
+DESC_STR_FIELDS = {'prop', 'name', 'pkg', 'tag', 'string'}
 DESC_BOOL_FIELDS = {'comparable', 'embedded', 'exported', 'named', 'wrapped'}
 DESC_INT_FIELDS = {'kind', 'size', 'len'}
 DESC_FN_FIELDS = {'copy', 'zero', 'keyFor'}
@@ -393,6 +393,8 @@ class JSExec(GoExec, SpecMixin, CallsMixin):
     def binop_js(self, st, op, a, b, line):
         if self.mode == 'fp' and isinstance(a, z3.ExprRef) and isinstance(b, z3.ExprRef) and z3.is_fp(a) and z3.is_fp(b):
             return self.binop_fp(st, op, a, b, line)
+        if (isinstance(a, JSStrId) or isinstance(b, JSStrId)) and op == '+':
+            return JSStrId(fresh('concat'))              # string concatenation with an opaque string: an opaque string
         if isinstance(a, JSStrId) or isinstance(b, JSStrId):
             if op not in ('===', '!==', '==', '!='):
                 raise Unsupported('operator %s on a descriptor string @%s' % (op, line))
@@ -405,7 +407,7 @@ class JSExec(GoExec, SpecMixin, CallsMixin):
             raise Unsupported('operator %s on an object @%s' % (op, line))
         if op in ('===', '!==') and isinstance(a, OptNum) and isinstance(b, JSUndef):
             return a.undef if op == '===' else z3.Not(a.undef)
-        if op in ('===', '!==', '==', '!=') and isinstance(a, JSObj) and isinstance(b, JSFunc) and (b.name.endswith('.nil') or b.name == '$chanNil') and '$nil' in a.fields:
+        if op in ('===', '!==', '==', '!=') and isinstance(a, JSObj) and isinstance(b, JSFunc) and (b.name.endswith('.nil') or b.name in ('$chanNil', '$ifaceNil')) and '$nil' in a.fields:
             return a.fields['$nil'] if op in ('===', '==') else z3.Not(a.fields['$nil'])
         if op in ('===', '!==', '==', '!=') and isinstance(a, JSOptFn) and isinstance(b, JSUndef):
             return a.undef if op in ('===', '==') else z3.Not(a.undef)
@@ -758,6 +760,8 @@ class JSExec(GoExec, SpecMixin, CallsMixin):
             f = JSFunc('arrayctor'); f.of = obj
             return f
         if isinstance(obj, JSObj):
+            if name == 'constructor' and 'constructor' in obj.fields:
+                return obj.fields['constructor']          # a boxed value: its constructor is the type descriptor
             if name == 'constructor':
                 f = JSFunc('ctor:' + (obj.ctor or '?')); f.of = obj
                 return f
@@ -871,6 +875,10 @@ class JSExec(GoExec, SpecMixin, CallsMixin):
                                     patterns=[z3.Select(na, k)]))
                 return StrV(na, z3.IntVal(0), src.length)
             obj = self.ev(st, c['object'])
+            if isinstance(obj, JSDesc) and mname == 'keyFor' and len(args) == 1:
+                # the map-key string of a value, computed by the value's type: opaque (a string identity)
+                self.ev(st, args[0])
+                return JSStrId(fresh('keyfor'))
             if isinstance(obj, JSQueue) and mname == 'shift' and not args:
                 return JSOptFn(fresh('q.empty', B))
             if isinstance(obj, JSDesc) and mname == 'copy' and len(args) == 2:
@@ -1372,6 +1380,8 @@ class JSExec(GoExec, SpecMixin, CallsMixin):
             return JSObj({'$array': arr, '$offset': off, '$length': ln, '$capacity': cap, '$nil': nil, '$elemtype': self.make_param(st, name + '.elem', 'elemtype')}, ctor='Slice', ref=fresh('obj'))
         if ty == 'elemtype':
             return JSObj({'kind': self.make_param(st, name + '.kind', 'nat')}, ctor='Type', ref=fresh('obj'))
+        if ty == 'iface':          # an interface value: nil, or a boxed value whose constructor is a type descriptor
+            return JSObj({'$nil': fresh(name + '.nil', B), 'constructor': self.make_param(st, name + '.type', 'desc'), '$val': fresh(name + '.val')}, ctor='Box', ref=fresh('obj'))
         if ty == 'chan':
             return JSObj({'$closed': fresh(name + '.closed', B), '$nil': fresh(name + '.nil', B), '$sendQueue': JSQueue('send'), '$recvQueue': JSQueue('recv'),
                           '$elem': JSObj({}, ctor='Type', ref=fresh('obj'))}, ctor='Chan', ref=fresh('obj'))
